@@ -399,6 +399,15 @@ theorem digit_facts : ∀ b : UInt8, isDigit b = true → b ≠ 34 ∧ b ≠ 45 
 theorem alpha_facts : ∀ b : UInt8, isAlpha b = true → b ≠ 34 ∧ isDigit b = false ∧ b ≠ 45 ∧ b ≠ 36 := by
   apply forall_uint8; decide +kernel
 
+/-- `only_literal` does not guard the `is_ascii_alphabetic` branch of `get_inline_expression`: on a letter the
+value of a named argument is parsed like any inline expression (a message reference or a function call) -/
+theorem getInline_ol_alpha (s : Src) (n p : Nat) (b : UInt8) (h0 : s[p]? = some b) (hb : isAlpha b = true) :
+    getInline s (n + 1) true p = getInline s (n + 1) false p := by
+  obtain ⟨h1, h2, h3, h4⟩ := alpha_facts b hb
+  rw [getInline, getInline, h0]
+  simp only [beq_iff_eq, h1, h2, h3, h4, if_false, hb, if_true, Bool.false_eq_true, Bool.false_and]
+  simp [h4]
+
 theorem validNumber_head {v : Bytes} (hv : validNumber v = true) :
     (∃ d rest, v = d :: rest ∧ isDigit d = true) ∨ (∃ d rest, v = 45 :: d :: rest ∧ isDigit d = true) := by
   obtain ⟨sign, ip, frac, rfl, hsign, hip, hipd, _⟩ := validNumber_decomp v hv
